@@ -122,6 +122,9 @@ def run(ctx):
         import c01_pipeline_thms, export_thms, c01_rfc_thms, c01_full_thms, c01_all_thms     # export_thms: C01 from capture-file bytes to output-file bytes
         import translate                 # decision-logic functions re-translated from the source and proved equal to the model
         _tm, _tt = translate.wire(ctx, "C01")
+        import oncode_thms               # the property theorems stated on the regenerated definitions themselves (Props/OnCode)
+        _om, _ot = oncode_thms.wire("C01")
+        _tm, _tt = _tm + _om, _tt + _ot
         ctx.prove(list(dict.fromkeys(mods + ["TLX.Props.C01Suites"] + list(getattr(rl, "PROVE_MODULES", []))
                                      + c01_pipeline_thms.MODULES + export_thms.MODULES + c01_rfc_thms.MODULES + c01_full_thms.MODULES + c01_all_thms.MODULES + _tm)))
         ctx.require_theorems(_tt)
